@@ -46,6 +46,11 @@ type c02Case struct {
 	// ZeroReads: (byte level) offsets at which the transport additionally hands out a
 	// zero-size read result (0, nil)
 	ZeroReads []int `json:"zero_size_reads_at,omitempty"`
+	// Used: (packet level) the channel has completed an earlier response before this one arrives
+	Used bool `json:"channel_used_before,omitempty"`
+	// Control: (packet level) before the packets with these indices a header-only control packet
+	// (PROTACK) for the channel arrives; it is handed to the consumer as such and changes nothing else
+	Control []int `json:"control_packets_before,omitempty"`
 	// Log: the fragmented run has Info.DebugLogPackages on (every package received is printed)
 	Log bool `json:"debug_log_packages,omitempty"`
 }
@@ -55,6 +60,8 @@ type delivered struct {
 	errs []string
 	// hooks: what the message and environment hooks of the channel were told, in order
 	hooks []string
+	// controls: header-only control packets fed / handed to the consumer
+	controls, gotControls int
 }
 
 // watch registers one message hook and one environment hook that record their calls.
@@ -89,6 +96,10 @@ func drain(ctx context.Context, conn *tds.Conn, ch *tds.Channel, d *delivered) {
 			}
 			continue
 		}
+		if _, ok := p.(*tds.HeaderOnlyPackage); ok {
+			d.gotControls++
+			continue
+		}
 		d.pkgs = append(d.pkgs, p)
 	}
 }
@@ -98,7 +109,17 @@ func toLibPacket(p rc.Packet) *tds.Packet {
 }
 
 // runPackets feeds packets through Channel.WritePacket (deterministic, single goroutine).
+// pktOpts are the extras of a packet-level run.
+type pktOpts struct {
+	used    bool
+	control []int
+}
+
+var curOpts pktOpts // set by runCase around the fragmented packet-level run (single goroutine)
+
 func runPackets(packets []rc.Packet, sendAt ...int) (d delivered, f *vh.Failure) {
+	opts := curOpts
+	curOpts = pktOpts{}
 	ctx, cancel := context.WithCancel(context.Background())
 	defer cancel()
 	conn, _, err := tds.VerifNewConn(ctx, peer.NewPipe(), &tds.Info{ChannelPackageQueueSize: 4096, DebugLogPackages: len(sendAt) > 1 && sendAt[1] == 1}, false)
@@ -110,7 +131,22 @@ func runPackets(packets []rc.Packet, sendAt ...int) (d delivered, f *vh.Failure)
 		vh.HarnessBug("NewChannel: %v", err)
 	}
 	watch(ch, &d)
+	if opts.used {
+		ch.WritePacket(&tds.Packet{Header: tds.PacketHeader{MsgType: tds.TDS_BUF_RESPONSE, Status: tds.TDS_BUFSTAT_EOM, Length: 8 + 9}, Data: []byte{rc.TokDone, byte(rc.DoneCount), 0, 0, 0, 3, 0, 0, 0}})
+		var first delivered
+		drain(ctx, conn, ch, &first)
+		if len(first.pkgs) != 2 || len(first.errs) != 0 {
+			return d, vh.Failf("C02/fragmented-delivery-differs", "the response before the one under test ([DONE(COUNT)] in one packet) delivered %d packages, errors %v", len(first.pkgs), first.errs)
+		}
+		d.hooks = nil
+	}
 	for i, p := range packets {
+		for _, ci := range opts.control {
+			if ci == i {
+				ch.WritePacket(&tds.Packet{Header: tds.PacketHeader{MsgType: tds.TDS_BUF_PROTACK, Length: 8}})
+				d.controls++
+			}
+		}
 		if len(sendAt) > 0 && sendAt[0] > 0 && (i == sendAt[0] || (i == len(packets)-1 && sendAt[0] >= len(packets))) {
 			if err := ch.SendPackage(ctx, &tds.LanguagePackage{Cmd: "select 1"}); err != nil {
 				d.errs = append(d.errs, "send: "+err.Error())
@@ -273,7 +309,11 @@ func runCase(c c02Case) (f *vh.Failure) {
 		}
 		B, f = runBytes(tcp, reads, c.EOFWithData, c.Log)
 	} else {
+		curOpts = pktOpts{used: c.Used, control: c.Control}
 		B, f = runPackets(packets, c.SendAt, map[bool]int{true: 1}[c.Log])
+		if f == nil && B.controls != B.gotControls {
+			return vh.Failf("C02/fragmented-control-packets", "response [%s]: %d control packets arrived between the response's packets, %d were handed to the consumer", respgen.Describe(c.Pkgs), B.controls, B.gotControls)
+		}
 	}
 	if f != nil {
 		return f
@@ -336,6 +376,12 @@ func runCase(c c02Case) (f *vh.Failure) {
 	}
 	if c.Normal {
 		vh.Label("packets-typed-normal")
+	}
+	if c.Used && !c.Byte {
+		vh.Label("channel-used-before")
+	}
+	if len(c.Control) > 0 && !c.Byte {
+		vh.Label("control-packets-between-fragments")
 	}
 	if c.Byte {
 		vh.Label("level:byte")
@@ -413,6 +459,13 @@ func TestPacketLevel(t *testing.T) {
 		}
 		c.Log = rapid.IntRange(0, 3).Draw(rt, "log") == 0
 		c.Normal = rapid.IntRange(0, 3).Draw(rt, "normal") == 0
+		c.Used = rapid.IntRange(0, 2).Draw(rt, "used") == 0
+		if rapid.IntRange(0, 3).Draw(rt, "control") == 0 {
+			np := len(c.Cuts) + 1
+			for k := rapid.IntRange(1, 2).Draw(rt, "ncontrol"); k > 0; k-- {
+				c.Control = append(c.Control, rapid.IntRange(0, np-1).Draw(rt, "controlat"))
+			}
+		}
 		if len(stream) < 60 {
 			vh.Sample("packet-level", c)
 		}
